@@ -70,7 +70,10 @@ TrCall ==
 TrRet ==
     /\ Ev.ev = "ret"
     /\ CASE Ev.op = "stop"   -> /\ stopDue' = Ev.t + stopTimeout + StopSlack /\ startDue' = -1 /\ verifyDue' = -1
-         [] Ev.op = "start"  -> /\ startDue' = (IF verifyDue = -1 THEN Ev.t + StartSlack ELSE -1) /\ stopDue' = -1 /\ UNCHANGED verifyDue
+         \* a Start issued while a verification request is open supersedes it: whatever the code makes of the pair (finish the
+         \* verification first, or abort it and run) is accepted, so neither deadline is armed and the verify window is closed
+         \* (seen in the thorough tier: Verify; Start while Verifying -> Stopping -> Allocating -> Downloading without a Stopped snapshot)
+         [] Ev.op = "start"  -> /\ startDue' = (IF verifyDue = -1 THEN Ev.t + StartSlack ELSE -1) /\ stopDue' = -1 /\ verifyDue' = -1
          [] Ev.op = "verify" -> /\ verifyDue' = (IF vphase = "done" THEN -1 ELSE Ev.t + VerifySlack) /\ stopDue' = -1 /\ startDue' = -1
          [] OTHER            -> UNCHANGED <<stopDue, startDue, verifyDue>>
     /\ vphase' = IF Ev.op = "verify" THEN "none" ELSE vphase
